@@ -15,7 +15,8 @@ DIR_NAMES = ["src", "lib", "tests", "build", "node_modules", "venv", ".git", ".h
 FILE_STEMS = ["main", "util", "a", "b", "test", "build", ".hid", "x.min", "Makefile", "README", "BUILD", "SConstruct", "deploy", "run"]
 EXTS = [".py", ".js", ".c", ".java", ".ts", ".cs", ".cpp", ".txt", ".rb", "", ".md", ".h"]
 PATTERN_POOL = ["a", "b", "src", "docs", "pkg", "lib", "main.py", "util.js", "a/", "docs/", "pkg/", "main/", "*.py", "*.js", "*.d", "*.min",
-                "a/b", "src/lib", "src/main.py", "a/*", "src/*", "pkg/*", "lib/a", "my tests", "# comment", "", "x.d", "b/", "*.c"]
+                "a/b", "src/lib", "src/main.py", "a/*", "src/*", "pkg/*", "lib/a", "my tests", "# comment", "", "x.d", "b/", "*.c",
+                "/lib", "/a", "/src", "/docs/a", "/main.py", "/pkg/lib"]
 
 
 def content_for(lang_ext, n):
@@ -134,7 +135,15 @@ def run(tier, seed, replay=None):
                     f.write("\n".join(gi) + ("\n" if gi else ""))
             else:
                 gi = None
-            Configuration.exclude = list(cfg)
+            # the configured exclusions arrive through the API, or through the command function (config file + option)
+            channel = rng.choice(["api", "command", "command"])
+            cfg_file = [p for i, p in enumerate(cfg) if i % 2 == 0] if channel == "command" else []
+            cfg_opt = [p for p in cfg if p not in cfg_file]
+            if channel == "command" and (cfg_file or rng.random() < 0.3):
+                import yaml
+                with open(os.path.join(root, ".codelimit.yml"), "w") as f:
+                    yaml.safe_dump({"exclude": cfg_file}, f)
+            Configuration.exclude = list(cfg) if channel == "api" else []
             spelling = rng.choice(["absolute", "relative", "dotdot"])
             os.chdir(os.path.join(top, "outer"))
             arg = {"absolute": Path(root), "relative": Path("proj"), "dotdot": Path("proj/../proj")}[spelling]
@@ -147,7 +156,14 @@ def run(tier, seed, replay=None):
             Scanner._analyze_file = rec
             try:
                 with contextlib.redirect_stdout(io.StringIO()):
-                    cb = Scanner.scan_path(arg)
+                    if channel == "api":
+                        cb = Scanner.scan_path(arg)
+                    else:
+                        # codelimit scan <arg> --exclude ... : the command function of __main__ (argument parsing is typer's)
+                        from codelimit import __main__ as cli_main
+                        from codelimit.common.report.ReportReader import ReportReader
+                        cli_main.scan(path=arg, exclude=list(cfg_opt) or None, verbose=False)
+                        cb = ReportReader.from_json(open(os.path.join(root, ".codelimit_cache", "codelimit.json")).read()).codebase
                 err = None
             except Exception as ex:
                 err = f"{type(ex).__name__}: {ex}"
@@ -155,7 +171,8 @@ def run(tier, seed, replay=None):
                 Scanner._analyze_file = orig
                 os.chdir(old_cwd)
                 Configuration.exclude = []
-            case = {"tree": nodes, "config_excludes": cfg, "gitignore": gi, "root_spelling": spelling}
+            case = {"tree": nodes, "config_excludes": cfg, "gitignore": gi, "root_spelling": spelling, "channel": channel}
+            chk.count("exclusions via " + channel)
             chk.evaluations += 1
             chk.count("root " + spelling)
             if err:
